@@ -96,6 +96,16 @@ func genRaceTree16(g *Rng, explicitVersion bool, size int, cfgTag string, wantDe
 		}
 		t.Res = append(t.Res, c16Res{Kind: g.Pick(kinds), Name: fmt.Sprintf("tz%d", i)})
 	}
+	// generated ConfigMaps / Secrets with content-hash name suffixes: the hasher runs in every build
+	ng := 2 + g.Intn(4)
+	for i := 0; i < ng; i++ {
+		gn := c16Gen{Secret: g.Chance(40), Name: fmt.Sprintf("g%d", i)}
+		nl := 1 + g.Intn(3)
+		for j := 0; j < nl; j++ {
+			gn.Lits = append(gn.Lits, fmt.Sprintf("k%d=v%d-%d-%d", j, g.Intn(1000000), i, j))
+		}
+		t.Gens = append(t.Gens, gn)
+	}
 	if cfgTag != "" {
 		kinds := []string{}
 		for _, k := range []string{"Foo", "Bar", "ConfigMap"} {
@@ -352,7 +362,9 @@ func c16GenRaceSpec(g *Rng, rounds int, explicit bool, tag string) c16RaceSpec {
 		case 0:
 			n = 6 + g.Intn(5)
 			rd.GoMaxProcs = []int{8, 16}[g.Intn(2)]
-			rd.Repeat = 1
+			// twice in a row: the second iteration calls SetSchema again while other builds are past their initSchema()
+			// (a SetSchema that invalidates the parsed schema for default builds then races with their unlocked reads)
+			rd.Repeat = 2
 		case 1:
 			n = 3 + g.Intn(4)
 			rd.GoMaxProcs = []int{4, 8, 16}[g.Intn(3)]
@@ -394,11 +406,23 @@ func c16EvalRace(r *Run, spec c16RaceSpec, job c16RaceJob, outs [][][]string, st
 		anyExplicit = anyExplicit || e
 	}
 	replay := func() interface{} { return map[string]interface{}{"kind": "race", "spec": spec} }
-	if strings.Contains(stderr, "fatal error: concurrent map") {
-		r.Violation(OracleViolation{Law: "no_data_race", Class: c16MapFatal,
-			Detail: "the Go runtime aborted the process: " + firstLines(stderr[strings.Index(stderr, "fatal error: concurrent map"):], 12), Replay: replay()})
-	} else if errText != "" {
-		r.Violation(OracleViolation{Law: "harness", Class: "C16/race-driver-failed", Detail: errText + "\n" + lastLines(stderr, 20), Replay: replay()})
+	if strings.Contains(stderr, "fatal error: concurrent map") || (errText != "" && errText != "timeout") {
+		// the driver process died. Which round? the one after the last ROUND-END marker
+		crashed := strings.Count(stderr, "C16RACE-ROUND-END ")
+		explicitRound := crashed < len(job.Explicit) && job.Explicit[crashed]
+		digest := c16CrashDigest(stderr)
+		cls := "C16/race-driver-failed"
+		if strings.Contains(stderr, "fatal error: concurrent map") {
+			cls = c16MapFatal
+			digest = "the Go runtime aborted the process: " + firstLines(stderr[strings.Index(stderr, "fatal error: concurrent map"):], 14)
+		}
+		// the one listed shape: a crash of a round that contains explicit-version trees, with the crashing goroutine
+		// inside kyaml/openapi (the known re-initialisation race turning into an actual memory fault)
+		if explicitRound && strings.Contains(digest, "kyaml/openapi.") {
+			cls = c16ReinitRace
+		}
+		r.Count("race_process_crash", cls)
+		r.Violation(OracleViolation{Law: "no_data_race", Class: cls, Detail: errText + "\n" + digest, Replay: replay()})
 	}
 	// race reports: attribute to rounds by the ROUND-END markers
 	seg := strings.Split(stderr, "C16RACE-ROUND-END ")
@@ -451,6 +475,28 @@ func c16RaceDigest(text string) string {
 	return strings.Join(out, "\n")
 }
 
+// c16CrashDigest: the lines of a crashed driver's stderr that say what happened (not the race reports, not registers).
+func c16CrashDigest(stderr string) string {
+	var out []string
+	for _, l := range strings.Split(stderr, "\n") {
+		if strings.HasPrefix(l, "fatal error:") || strings.HasPrefix(l, "panic:") || strings.Contains(l, "SIG") ||
+			strings.HasPrefix(l, "runtime:") || strings.Contains(l, "ThreadSanitizer") || strings.HasPrefix(l, "goroutine ") && strings.Contains(l, "[running]") {
+			out = append(out, l)
+		}
+	}
+	if len(out) > 25 {
+		out = out[:25]
+	}
+	i := strings.Index(stderr, "[running]")
+	if i >= 0 {
+		out = append(out, firstLines(stderr[i:], 25))
+	}
+	if len(out) == 0 {
+		return lastLines(stderr, 25)
+	}
+	return strings.Join(out, "\n")
+}
+
 func firstLines(s string, n int) string {
 	l := strings.Split(s, "\n")
 	if len(l) > n {
@@ -484,7 +530,19 @@ func c16RaceSearch(r *Run, g *Rng, procs int, tier string) error {
 		}
 		specs = append(specs, c16GenRaceSpec(g.Fork(), nr, p%3 == 2, fmt.Sprintf("p%d", p)))
 	}
-	for _, spec := range specs {
+	budget, perProc := 75*time.Second, 60*time.Second
+	if tier == "thorough" {
+		budget, perProc = 13*time.Minute, 240*time.Second
+	}
+	t0 := time.Now()
+	for si, spec := range specs {
+		if time.Since(t0) > budget {
+			// a slow implementation / loaded machine must not blow the check's budget: the remaining processes are not run
+			r.Count("race_process", "not-run-time-budget")
+			r.Meta.Notes = append(r.Meta.Notes, fmt.Sprintf("race search stopped after %d of %d processes: wall-time budget %v used up", si, len(specs), budget))
+			break
+		}
+		r.Count("race_process", "run")
 		job := c16JobOf(spec)
 		for ri, rd := range job.Rounds {
 			r.Count("race_round_trees", fmt.Sprint(len(rd.Trees)))
@@ -509,7 +567,31 @@ func c16RaceSearch(r *Run, g *Rng, procs int, tier string) error {
 				}
 			}
 		}
-		outs, stderr, errText := c16RunRace(bin, job, 240*time.Second)
+		outs, stderr, errText := c16RunRace(bin, job, perProc)
+		if errText != "" && errText != "timeout" && !strings.Contains(stderr, "fatal error: concurrent map") {
+			// the driver died without the runtime naming a reason: run the same job again (twice); only a death that
+			// repeats is reported, a single unexplained one is recorded as a note (flakiness control)
+			again := 0
+			for k := 0; k < 2; k++ {
+				o2, s2, e2 := c16RunRace(bin, job, perProc)
+				if e2 != "" && e2 != "timeout" {
+					again++
+					stderr = s2
+				} else if again == 0 {
+					outs, stderr, errText = o2, s2, e2
+					break
+				}
+			}
+			if again == 0 {
+				r.Count("race_process", "crashed-once-not-reproduced")
+				r.Meta.Notes = append(r.Meta.Notes, "a race-driver process died once without a runtime message and ran through when repeated")
+			}
+		}
+		if errText == "timeout" {
+			// not a violation by itself; the race reports printed so far are still evaluated
+			r.Count("race_process", "killed-after-timeout")
+			errText = ""
+		}
 		c16EvalRace(r, spec, job, outs, stderr, errText)
 	}
 	return nil
@@ -579,5 +661,10 @@ func replayC16(path string) (bool, string, error) {
 	if err == nil {
 		fmt.Fprintf(&b, "Coq case term:\n%s\n", term)
 	}
-	return false, b.String(), nil
+	// judged without the model: facts about the API every sequence must satisfy
+	bad := c16Expect(seq, res)
+	for _, e := range bad {
+		fmt.Fprintf(&b, "EXPECTATION VIOLATED: %s\n", e)
+	}
+	return len(bad) > 0, b.String(), nil
 }
